@@ -220,7 +220,8 @@ def mk_ite_c(c, t, f):
         return Tuple([mk_ite_c(c, a, b) for a, b in zip(t.items, f.items)])
     if isinstance(t, Array) and isinstance(f, Array) and len(t.items) == len(f.items):
         return Array([mk_ite_c(c, a, b) for a, b in zip(t.items, f.items)])
-    return Ite(c, t, f)
+    r = Ite(c, t, f)
+    return r
 
 
 def mk_ite(b, t, f):
@@ -341,6 +342,10 @@ class Ctx:
                     args = [-a0]
         if name == "powf" and isinstance(args[1], RatFunc) and args[1].is_const():
             e = args[1].const_value()
+            if e == Fraction(1, 3):
+                return self.app("cbrt", [args[0]])
+            if e == Fraction(1, 2):
+                return self.app("sqrt", [args[0]])
             if e.denominator == 1 and abs(e.numerator) <= 8 and isinstance(args[0], RatFunc):
                 return args[0] ** int(e)
             b = args[0]
@@ -484,6 +489,9 @@ class Evaluator:
     def eval_body(self, body, args=None, tsubst=None, depth=0, self_name=None):
         """Evaluate a body; args: list of values for params (default: fresh symbols).
         Returns (value, final env dict name->value for params bound by-name)."""
+        if depth == 0:
+            poly.reset_budget()
+            self.steps = 0
         env = {}
         params = body.get("params", [])
         if args is None:
@@ -603,6 +611,9 @@ class Evaluator:
 
     # ---- expressions -----------------------------------------------------------
     def ev(self, e, fr):
+        self.steps = getattr(self, "steps", 0) + 1
+        if self.steps > 400000:
+            raise Opaque("evaluation step budget exhausted")
         k = e["k"]
         m = getattr(self, "ev_" + k, None)
         if m is None:
@@ -687,6 +698,10 @@ class Evaluator:
         return self.ctx.const_cache[key]
 
     def const_value(self, c, fr, e):
+        path0 = self.S[c.get("r", c["d"])]
+        std0 = _STD_CONSTS.get(path0.split("::", 1)[-1] if path0.startswith(("std::", "core::")) else path0)
+        if std0 is not None:
+            return self.ctx.sym(std0)
         if "v" in c:
             return self.scalar_const(c["v"])
         bid = c.get("ri", c.get("i"))
@@ -709,8 +724,11 @@ class Evaluator:
         if v in ("true", "false"):
             return v == "true"
         if v.startswith(("f32:", "f64:")):
-            x = float(v[4:])
-            return self.ctx.num(Fraction(x))
+            t = v[4:]
+            if t in ("inf", "-inf", "NaN"):
+                return self.ctx.sym("float:" + t)
+            # shortest round-trip decimal of the constant = the decimal the source wrote
+            return self.ctx.num(Fraction(t))
         if v.startswith("char:"):
             return StrVal(chr(int(v[5:])))
         return self.ctx.num(int(v))
@@ -842,7 +860,7 @@ class Evaluator:
         a = self.ev(e["a"][0], fr)
         b = self.ev(e["a"][1], fr)
         c = e.get("c")
-        if c is not None and "ri" in c:
+        if c is not None and ("ri" in c or isinstance(self.deref(a), Struct) or isinstance(self.deref(b), Struct)):
             return self.call_callee(c, [a, b], fr, e)
         return self.binop(op, a, b, e)
 
@@ -1043,6 +1061,11 @@ class Evaluator:
         except (KeyError, IndexError, TypeError):
             raise Opaque("unrecognised for-loop desugaring")
         it = self.ev(it_expr, fr)
+        if isinstance(it, Struct) and it.path.endswith("ops::Range") and all(isinstance(it.fields.get(k), RatFunc) and it.fields[k].is_const() for k in ("start", "end")):
+            lo, hi = int(it.fields["start"].const_value()), int(it.fields["end"].const_value())
+            if hi - lo > 64:
+                raise Opaque("range loop too long")
+            it = Array([self.ctx.num(i) for i in range(lo, hi)])
         if isinstance(it, Array):
             # constant-size array: unroll
             for x in it.items:
@@ -1219,6 +1242,11 @@ class Evaluator:
         keep_refs = _OPKEY.get(spath) in ("into_array_mut",) or _OPKEY.get(rpath) in ("into_array_mut",)
         if not keep_refs:
             args = [self.deref(a) if isinstance(a, MutRef) else a for a in args]
+        if not local_std and spath.startswith(("std::ops::", "core::ops::")) and args and isinstance(self.deref(args[0]), Struct):
+            b2 = self.struct_op_impl(c, [self.deref(a) for a in args])
+            if b2 is not None and fr.depth < self.ctx.max_depth:
+                res, fr2 = self.inline(b2, c, raw_args, fr, generic_from_self=True)
+                return res
         if not local_std:
             for p in (spath, rpath):
                 r = self.operator(p, name, args, fr, c, e)
@@ -1240,8 +1268,48 @@ class Evaluator:
                 raise Opaque("inline depth exceeded at %s" % rpath)
             res, fr2 = self.inline(b, c, raw_args, fr)
             return res
+        # 3b. trait method on a concrete ADT that rustc left to a where-clause: if exactly one
+        #     impl of the trait exists for that ADT, it is the one (no overlap in stable Rust)
+        if "tr" in c and "ri" not in c and c["a"]:
+            b2 = self.unique_impl_method(c, fr)
+            if b2 is not None and b2["path"] not in self.ctx.no_inline and fr.depth < self.ctx.max_depth:
+                res, fr2 = self.inline(b2, c, raw_args, fr, generic_from_self=True)
+                return res
         # 4. uninterpreted
         return self.uninterpreted(self.app_name(rpath, c, fr), args)
+
+    def struct_op_impl(self, c, args):
+        """std::ops trait applied to a palette struct through a where-clause: pick the impl by
+        the shape of the right-hand side (same ADT vs scalar)."""
+        lhs = args[0]
+        tr = self.S[c["tr"]] if "tr" in c else None
+        if tr is None or lhs.path not in self.F.adt_by_path:
+            return None
+        ims = [im for im in self.F.impls if im.get("trait") == tr and im.get("self_adt") == lhs.path]
+        if len(args) > 1:
+            rhs = args[1]
+            if isinstance(rhs, Struct):
+                ims = [im for im in ims if im["trait_args_s"] and _adt_of_type(im["trait_args_s"][0]) == rhs.path]
+            else:
+                ims = [im for im in ims if im["trait_args_s"] and re.match(r"^[A-Z][A-Za-z0-9_]*$", im["trait_args_s"][0])]
+        if len(ims) != 1:
+            return None
+        return self.F.impl_method(ims[0], c["n"])
+
+    def unique_impl_method(self, c, fr):
+        key = (c["tr"], c["a"][0], c["n"])
+        cache = self.ctx.const_cache
+        if ("uim", key) in cache:
+            return cache[("uim", key)]
+        res = None
+        self_ty = self.subst_ty(self.S[c["a"][0]], fr)
+        adt = _adt_of_type(self_ty)
+        if adt in self.F.adt_by_path:
+            ims = [im for im in self.F.impls if im.get("trait") == self.S[c["tr"]] and im.get("self_adt") == adt]
+            if len(ims) == 1:
+                res = self.F.impl_method(ims[0], c["n"])
+        cache[("uim", key)] = res
+        return res
 
     def _trait_default(self, c, b):
         # a trait method with a default body, unresolved: inlining it would be unsound if
@@ -1288,12 +1356,23 @@ class Evaluator:
             return self.ctx.sym("fn:" + self.S[a[1]["d"]])
         raise Opaque("cannot scalarize %r" % (a,))
 
-    def inline(self, b, c, args, fr):
+    def inline(self, b, c, args, fr, generic_from_self=False):
         # generic substitution: callee generic names -> caller type args (strings)
         tsub = {}
         gens = b.get("generics")
         ra = c.get("ra", c["a"])
-        if gens and len(gens) == len(ra):
+        if generic_from_self:
+            # impl generics are recovered by matching the impl's self type against the call's
+            im = b.get("_impl")
+            if im is not None:
+                from .alg import split_type
+                _, pat = split_type(im["self_s"])
+                _, act = split_type(self.subst_ty(self.S[c["a"][0]], fr))
+                if len(pat) == len(act):
+                    for g, a in zip(pat, act):
+                        if re.match(r"^[A-Za-z_][A-Za-z0-9_]*$", g):
+                            tsub[g] = a
+        elif gens and len(gens) == len(ra):
             for g, a in zip(gens, ra):
                 tsub[g] = self.subst_ty(self.S[a], fr)
         self.trace_calls.append((fr.body["path"], b["path"]))
@@ -1440,10 +1519,29 @@ class Evaluator:
         return args[0]
 
     def op_into(self, args, fr, c, e):
-        # Into/From between identical types only
-        ta = [self.S[a] for a in c["a"]]
+        ta = [self.subst_ty(self.S[a], fr) for a in c["a"]]
         if len(ta) == 2 and ta[0] == ta[1]:
             return args[0]
+        if len(ta) == 2:
+            src, dst = (ta[0], ta[1]) if c["n"] == "into" else (ta[1], ta[0])
+            v = self.deref(args[0])
+            # colour -> [T; N] and back (impl_array_casts!): declaration order of the fields
+            if dst.startswith("[") and isinstance(v, Struct) and v.path in self.F.adt_by_path:
+                return Array(self.struct_components(v))
+            if src.startswith("[") and isinstance(v, Array):
+                adt = self.F.adt_by_path.get(_adt_of_type(dst))
+                if adt is not None and len(adt["variants"]) == 1:
+                    fields = {}
+                    items = list(v.items)
+                    for f in adt["variants"][0]["f"]:
+                        if self.S[f["t"]].startswith(("core::marker::PhantomData", "std::marker::PhantomData")):
+                            fields[f["n"]] = Struct("PhantomData", {})
+                        else:
+                            if not items:
+                                return NotImplemented
+                            fields[f["n"]] = items.pop(0)
+                    if not items:
+                        return Struct(adt["path"], fields)
         return NotImplemented
 
     # ---- component collections / iterators ------------------------------------------
